@@ -399,4 +399,16 @@ static void body()
     vrt::alloc::check_pairing("codec");
 }
 
+#ifdef VRT_FUZZ
+// libFuzzer front end (thorough tier of C15): byte 0 selects the decoder, the rest is the
+// text handed to it; same monitors as the generated cases (decode_case).
+static void vrt_fuzz_one(const uint8_t *d, size_t n)
+{
+    PROP = "C15";
+    if (n == 0) return;
+    decode_case(S(reinterpret_cast<const char *>(d + 1), n - 1), (d[0] & 1) != 0);
+    vrt::count("fuzz.inputs");
+}
+#endif
+
 VRT_MAIN(body)
